@@ -4,18 +4,65 @@ From V Require Import lib.Verdict lib.BlockSvc model.M_C04.
 Import ListNotations.
 Open Scope Z_scope.
 
+(** ---------- the translated default allowlist equals the table ---------- *)
+From V Require Import gen.Gen_C04.
+
+Ltac eqb_cases :=
+  repeat match goal with
+         | |- context [Z.eqb ?a ?b] =>
+             destruct (Z.eqb_spec a b) as [?E | ?E]; [subst; vm_compute; reflexivity |]
+         end.
+
+Lemma gen_is_allowed : forall code, defaultAllowlist_IsAllowed code = default_is_allowed code.
+Proof.
+  intros code. unfold defaultAllowlist_IsAllowed, default_is_allowed, zin, default_allowed_codes.
+  cbv [existsb SHA2_256 SHA2_512 SHAKE_256 DBL_SHA2_256 BLAKE3 IDENTITY SHA3_224 SHA3_256 SHA3_384 SHA3_512
+       KECCAK_224 KECCAK_256 KECCAK_384 KECCAK_512 SHA1 BLAKE2B_MIN BLAKE2B_MAX BLAKE2S_MIN BLAKE2S_MAX].
+  eqb_cases. cbn [orb].
+  replace (45569 + 19) with 45588 by reflexivity. replace (45633 + 19) with 45652 by reflexivity.
+  reflexivity.
+Qed.
+
+Lemma gen_min : forall code, defaultAllowlist_MinDigestSize code = default_min code.
+Proof. intros code. unfold defaultAllowlist_MinDigestSize, default_min, IDENTITY. reflexivity. Qed.
+
+Lemma gen_max : forall code, defaultAllowlist_MaxDigestSize code = default_max code.
+Proof.
+  intros code. unfold defaultAllowlist_MaxDigestSize, default_max.
+  destruct (Z.eqb code 0); reflexivity.
+Qed.
+
+Lemma is_allowed_sp : forall al code, is_allowed al code = sp_allowed al code.
+Proof.
+  fix IH 1. intros [| l mn mx | [o |] m] code; cbn [is_allowed sp_allowed].
+  - apply gen_is_allowed.
+  - reflexivity.
+  - destruct (assoc code m); [reflexivity | apply IH].
+  - reflexivity.
+Qed.
+Lemma min_digest_sp : forall al code, min_digest al code = sp_min al code.
+Proof.
+  fix IH 1. intros [| l mn mx | [o |] m] code; cbn [min_digest sp_min];
+    [apply gen_min | reflexivity | apply IH | apply gen_min].
+Qed.
+Lemma max_digest_sp : forall al code, max_digest al code = sp_max al code.
+Proof.
+  fix IH 1. intros [| l mn mx | [o |] m] code; cbn [max_digest sp_max];
+    [apply gen_max | reflexivity | apply IH | apply gen_max].
+Qed.
+
 (** ---------- the validator ---------- *)
 
 Lemma validate_ok_iff : forall al code len,
   validate al code len = EOk <->
-  is_allowed al code = true /\ min_digest al code <= len <= max_digest al code.
+  sp_allowed al code = true /\ sp_min al code <= len <= sp_max al code.
 Proof.
-  intros al code len. unfold validate.
-  destruct (is_allowed al code) eqn:Ha; cbn [negb].
-  - destruct (len <? min_digest al code) eqn:Hmin.
+  intros al code len. unfold validate. rewrite is_allowed_sp, min_digest_sp, max_digest_sp.
+  destruct (sp_allowed al code) eqn:Ha; cbn [negb].
+  - destruct (len <? sp_min al code) eqn:Hmin.
     + apply Z.ltb_lt in Hmin. split; [discriminate | intros [_ H]; lia].
     + apply Z.ltb_ge in Hmin.
-      destruct (max_digest al code <? len) eqn:Hmax.
+      destruct (sp_max al code <? len) eqn:Hmax.
       * apply Z.ltb_lt in Hmax. split; [discriminate | intros [_ H]; lia].
       * apply Z.ltb_ge in Hmax. split; [intros _; split; [reflexivity | lia] | reflexivity].
   - split; [discriminate | intros [H _]; discriminate].
@@ -23,33 +70,33 @@ Qed.
 
 Lemma validate_vok_spec : forall al code len, vok (validate al code len) = valid_spec al code len.
 Proof.
-  intros al code len. unfold validate, valid_spec.
-  destruct (is_allowed al code); cbn [negb andb vok]; [| reflexivity].
-  destruct (len <? min_digest al code) eqn:Hmin; cbn [vok].
-  - apply Z.ltb_lt in Hmin. assert (H : (min_digest al code <=? len) = false) by (apply Z.leb_gt; lia).
+  intros al code len. unfold validate, valid_spec. rewrite is_allowed_sp, min_digest_sp, max_digest_sp.
+  destruct (sp_allowed al code); cbn [negb andb vok]; [| reflexivity].
+  destruct (len <? sp_min al code) eqn:Hmin; cbn [vok].
+  - apply Z.ltb_lt in Hmin. assert (H : (sp_min al code <=? len) = false) by (apply Z.leb_gt; lia).
     rewrite H. reflexivity.
-  - apply Z.ltb_ge in Hmin. assert (H : (min_digest al code <=? len) = true) by (apply Z.leb_le; lia).
+  - apply Z.ltb_ge in Hmin. assert (H : (sp_min al code <=? len) = true) by (apply Z.leb_le; lia).
     rewrite H. cbn [andb].
-    destruct (max_digest al code <? len) eqn:Hmax; cbn [vok].
+    destruct (sp_max al code <? len) eqn:Hmax; cbn [vok].
     + apply Z.ltb_lt in Hmax. symmetry. apply Z.leb_gt. lia.
     + apply Z.ltb_ge in Hmax. symmetry. apply Z.leb_le. lia.
 Qed.
 
 (** error classes: which rejection is reported *)
 Lemma validate_classes : forall al code len,
-  (validate al code len = EInsecure <-> is_allowed al code = false) /\
-  (validate al code len = ETooSmall <-> is_allowed al code = true /\ len < min_digest al code) /\
+  (validate al code len = EInsecure <-> sp_allowed al code = false) /\
+  (validate al code len = ETooSmall <-> sp_allowed al code = true /\ len < sp_min al code) /\
   (validate al code len = ETooLarge <->
-     is_allowed al code = true /\ min_digest al code <= len /\ max_digest al code < len).
+     sp_allowed al code = true /\ sp_min al code <= len /\ sp_max al code < len).
 Proof.
-  intros al code len. unfold validate.
-  destruct (is_allowed al code); cbn [negb].
-  - destruct (len <? min_digest al code) eqn:Hmin;
+  intros al code len. unfold validate. rewrite is_allowed_sp, min_digest_sp, max_digest_sp.
+  destruct (sp_allowed al code); cbn [negb].
+  - destruct (len <? sp_min al code) eqn:Hmin;
       [apply Z.ltb_lt in Hmin | apply Z.ltb_ge in Hmin].
     + split; [split; discriminate |]. split.
       * split; [intros _; split; [reflexivity | exact Hmin] | reflexivity].
       * split; [discriminate | intros [_ [H _]]; lia].
-    + destruct (max_digest al code <? len) eqn:Hmax;
+    + destruct (sp_max al code <? len) eqn:Hmax;
         [apply Z.ltb_lt in Hmax | apply Z.ltb_ge in Hmax].
       * split; [split; discriminate |]. split.
         -- split; [discriminate | intros [_ H]; lia].
@@ -69,7 +116,7 @@ Proof.
   - intros H. exists x. split; [exact H | apply Z.eqb_refl].
 Qed.
 
-Lemma default_table : forall code,
+Lemma default_table_hand : forall code,
   default_is_allowed code = true <->
   In code [0x12; 0x13; 0x19; 0x56; 0x1e; 0x00; 0x17; 0x16; 0x15; 0x14; 0x1a; 0x1b; 0x1c; 0x1d; 0x11]
   \/ 0xb214 <= code <= 0xb240 \/ 0xb254 <= code <= 0xb260.
@@ -94,19 +141,31 @@ Proof.
         -- destruct Hs as [Hs | Hs]; apply Z.leb_gt in Hs; lia.
 Qed.
 
+(** ... stated about the function translated from Go *)
+Lemma default_table : forall code,
+  defaultAllowlist_IsAllowed code = true <->
+  In code [0x12; 0x13; 0x19; 0x56; 0x1e; 0x00; 0x17; 0x16; 0x15; 0x14; 0x1a; 0x1b; 0x1c; 0x1d; 0x11]
+  \/ 0xb214 <= code <= 0xb240 \/ 0xb254 <= code <= 0xb260.
+Proof. intros code. rewrite gen_is_allowed. apply default_table_hand. Qed.
+
+Lemma default_sizes_translated : forall code,
+  defaultAllowlist_MinDigestSize code = (if code =? 0 then 0 else 20) /\
+  defaultAllowlist_MaxDigestSize code = 128.
+Proof. intros code. rewrite gen_min, gen_max. split; reflexivity. Qed.
+
 (** identity: exempt from the minimum, capped at 128; every other default-allowed hash: 20..128 *)
 Lemma identity_exempt_capped : forall len,
   validate ADefault 0 len = EOk <-> 0 <= len <= 128.
 Proof.
-  intros len. rewrite validate_ok_iff. cbn [is_allowed min_digest max_digest].
+  intros len. rewrite validate_ok_iff. cbn [sp_allowed sp_min sp_max].
   unfold default_min, default_max, IDENTITY. cbn [Z.eqb].
   split; [intros [_ H]; exact H | intros H; split; [reflexivity | exact H]].
 Qed.
 
 Lemma default_sizes : forall code len, code <> 0 ->
-  (validate ADefault code len = EOk <-> default_is_allowed code = true /\ 20 <= len <= 128).
+  (validate ADefault code len = EOk <-> defaultAllowlist_IsAllowed code = true /\ 20 <= len <= 128).
 Proof.
-  intros code len Hc. rewrite validate_ok_iff. cbn [is_allowed min_digest max_digest].
+  intros code len Hc. rewrite validate_ok_iff, gen_is_allowed. cbn [sp_allowed sp_min sp_max].
   unfold default_min, default_max, IDENTITY.
   destruct (code =? 0) eqn:E; [apply Z.eqb_eq in E; contradiction |]. tauto.
 Qed.
@@ -114,10 +173,10 @@ Qed.
 (** overriding allowlists: the allowset decides where it has an entry, the override elsewhere;
     sizes always come from the override (or the default) *)
 Lemma custom_lookup : forall ov m code,
-  is_allowed (ACustom ov m) code =
+  sp_allowed (ACustom ov m) code =
   match assoc code m with
   | Some g => g
-  | None => match ov with Some o => is_allowed o code | None => false end
+  | None => match ov with Some o => sp_allowed o code | None => false end
   end.
 Proof. reflexivity. Qed.
 
@@ -424,3 +483,15 @@ Proof.
   destruct IH as [Hs2 Hrest]. split; [exact Hs2 |]. cbn [all_steps_clean]. rewrite H1, Hrest. reflexivity.
 Qed.
 End Clean.
+
+(** the hypothesis [trust_cid fl = false] of [run_clean] is necessary: the code before fix C05-1
+    stores and returns a rejected CID that a hostile exchange pushes *)
+Lemma trusting_not_clean :
+  let a := mkcid 1 0x55 0x12 32 1 in
+  let bad := mkcid 1 0x55 0xd5 16 2 in
+  let fl := {| trust_cid := true; trust_hash := true |} in
+  exists h, store_clean ADefault (fst (run (validate ADefault) true XPlain fl [] h)) = false.
+Proof.
+  exists [(OGetMany PPlain [mkcid 1 0x55 0x12 32 1] (Some [mkblk (mkcid 1 0x55 0xd5 16 2) 2]), no_faults)].
+  vm_compute. reflexivity.
+Qed.
